@@ -448,10 +448,12 @@ def ev_fixpoint(ident: int, c: Case) -> dict:
         x = pane.from_data(c.val, c.ty)
         ax = abstract(x)
     except Exception:  # noqa
-        e.update(x={'k': 'none'}, have='F', out={'k': 'unconverted'}, nat={'k': 'unconverted'}, twice={'k': 'unconverted'})
+        e.update(x={'k': 'none'}, have='F', out={'k': 'unconverted'}, nat={'k': 'unconverted'}, twice={'k': 'unconverted'},
+                 ser={'k': 'skip'})
         return e
     e['x'] = ax
     e['have'] = 'T'
+    e['ser'] = _call(pane.into_data, x)[0]      # the value's own serialised form (what convert() parses)
     e['out'] = outcome(pane.convert, x, c.ty)
     try:
         native = native_copy(x)            # rebuilt natively: not an object pane produced
